@@ -1521,6 +1521,14 @@ func (vc *VC) typeAssert(fr *Frame, st *State, x *ssa.TypeAssert) (forks []*Stat
 		match := iv.Dyn != nil && types.Identical(iv.Dyn, x.AssertedType)
 		if _, isIface := x.AssertedType.Underlying().(*types.Interface); isIface {
 			match = iv.Dyn != nil && types.Implements(iv.Dyn, x.AssertedType.Underlying().(*types.Interface))
+			if iv.Dyn == streamDynType() && x.CommaOk && !match {
+				// a ghost reader's dynamic type is unknown: it may or may not implement further
+				// interfaces (io.Seeker, io.WriterTo, ...). Both outcomes are explored; using a
+				// method the stream model lacks then stops generation (reported, never proved).
+				okT := vc.freshTerm("implements", SBool)
+				fr.env[x] = TupleVal{iv, okT}
+				return
+			}
 			if x.CommaOk {
 				if match {
 					fr.env[x] = TupleVal{iv, TTrue()}
